@@ -21,6 +21,8 @@ func checkC14(r *Report, p *Program) {
 	r12_5(r, p) // R12.5 rule id kept: same obligations
 	keyCompleteness(r, p, "R14.5", "informer.resourceKey")
 	r14_6(r, p)
+	// the trigger predicate accepts exactly what the listing side selects (shared with C15)
+	r15_2(r, p)
 	// no event is lost between the replay of the cache to a new handler and its registration (shared with C18)
 	r18_4(r, p)
 }
